@@ -8,9 +8,9 @@ from props.c19 import certify
 
 OBLIGATIONS = dict(
     prop_file='Properties/C17.v',
-    glue=['Glue/LossGlue.v', 'Glue/Pin_p_losses.v'] + ['Glue/Pin_fp_C17.v'],
+    glue=['Glue/LossGlue.v', 'Glue/Pin_p_losses.v'] + ['Glue/Pin_fp_C17.v', 'Glue/RequantGlue.v'],
     extra=['Model/Losses.vo'],
-    gen_items=['g_vq_commit', 'p_losses', 'k_safe_div', 'fp_C17'],
+    gen_items=['g_vq_commit', 'p_losses', 'k_safe_div', 'o_vq_codebook_calls', 'fp_C17'],
 )
 ASSUMPTIONS = [
     'the documented formulas are recomputed independently (float64) from the recorded inputs, selected codes, codebook, weights, temperatures and masks; mse-type terms are additionally evaluated in Coq on exact rationals; '
